@@ -469,6 +469,21 @@ func (x *c13Run) setChunk(c *bgzf.Chunk) bool {
 	return true
 }
 
+// seek: bam.Reader.Seek
+func (x *c13Run) seek(off bgzf.Offset) bool {
+	var err error
+	if !x.guarded("Seek", func() { err = x.br.Seek(off) }) {
+		return false
+	}
+	x.ops = append(x.ops, "S"+showOff(off))
+	x.out = append(x.out, c02ErrClass(err))
+	if err != nil {
+		x.fail("c13.seek.error", fmt.Sprintf("Seek(%v): %v", off, err))
+		return false
+	}
+	return true
+}
+
 func sameInts(a, b []int) bool {
 	if len(a) != len(b) {
 		return false
@@ -600,6 +615,64 @@ func runC13Bam(c *ctx, b *c13Bam, rd int, replayOps []string) (ops, out []string
 			x.fail("c13.setchunk-nil", fmt.Sprintf("after SetChunk(nil) records %v then %v, expected %d..%d then EOF", idx, ferr, last+1, n-1))
 		}
 		curNext = n
+	}
+	// 3b. repositioning without a Read in between (the reader's own idea of "where I am" must not be trusted):
+	// read records 0..k through a chunk, then (a) SetChunk to another chunk that is never read, or (b) Reader.Seek
+	// elsewhere, then SetChunk to the chunk that begins exactly at the End noted for record k.
+	var ks []int
+	for _, k := range []int{0, n - 2, (n - 2) / 2} {
+		if k >= 0 && k <= n-2 && (len(ks) == 0 || ks[len(ks)-1] != k) && !(len(ks) > 1 && ks[0] == k) {
+			ks = append(ks, k)
+		}
+	}
+	for vi, k := range ks {
+		for variant := 0; variant < 2; variant++ {
+			j := n - 1
+			if (vi+variant)%2 == 1 {
+				j = k + 1
+			}
+			first := bgzf.Chunk{Begin: chunks[0].Begin, End: chunks[k].End}
+			if !x.setChunk(&first) {
+				return x.ops, x.out
+			}
+			idx, _, ferr, ok := x.readAll()
+			if !ok {
+				return x.ops, x.out
+			}
+			if !sameInts(idx, seqInts(0, k)) || ferr != io.EOF {
+				x.fail("c13.replay."+b.boundaryClass(b.recEnd[k]), fmt.Sprintf("SetChunk(%v) returned records %v then %v", first, idx, ferr))
+				return x.ops, x.out
+			}
+			what := "setchunk-unread"
+			if variant == 0 {
+				other := bgzf.Chunk{Begin: chunks[0].Begin, End: chunks[0].End}
+				if !x.setChunk(&other) {
+					return x.ops, x.out
+				}
+			} else {
+				what = "reader-seek"
+				if !x.seek(chunks[0].Begin) {
+					return x.ops, x.out
+				}
+			}
+			next := bgzf.Chunk{Begin: chunks[k].End, End: chunks[j].End}
+			if !x.setChunk(&next) {
+				return x.ops, x.out
+			}
+			idx, _, ferr, ok = x.readAll()
+			if !ok {
+				return x.ops, x.out
+			}
+			if !sameInts(idx, seqInts(k+1, j)) || ferr != io.EOF {
+				x.fail("c13.replay.after-"+what, fmt.Sprintf("records 0..%d read, then %s, then SetChunk([End of %d, End of %d] = %v) returned records %v then %v", k, what, k, j, next, idx, ferr))
+			}
+			curNext = j + 1
+			r.eval(fmt.Sprintf("bam%d|%d|reposition|%d|%d|%d", b.id, rd, k, j, variant), true)
+			r.hist("reposition." + what)
+		}
+	}
+	if len(ks) > 0 && !x.setChunk(nil) { // lift the limit again for what follows
+		return x.ops, x.out
 	}
 	// 4. iterators over chunk lists in any order
 	for it := 0; it < 3 && n > 0; it++ {
@@ -804,7 +877,7 @@ func runC13Trunc(c *ctx, b *c13Bam, rd int) (ops, out []string) {
 func (f *c02File) offsetReps(p int, asEnd bool) []bgzf.Offset {
 	var out []bgzf.Offset
 	for i := range f.start {
-		if f.start[i] <= p && p <= f.start[i]+f.blen[i] {
+		if f.start[i] <= p && p <= f.start[i]+f.blen[i] && p-f.start[i] <= 0xffff { // the end of a 65536-byte block has no in-block representation
 			out = append(out, bgzf.Offset{File: f.base[i], Block: uint16(p - f.start[i])})
 		}
 	}
@@ -948,6 +1021,9 @@ func genChunkList(rnd *Rand, f *c02File, allowEmpty bool) (chunks []bgzf.Chunk, 
 		}
 		bs := f.offsetReps(p, false)
 		es := f.offsetReps(q, true)
+		if len(bs) == 0 || len(es) == 0 {
+			continue
+		}
 		b := bs[rnd.intn(len(bs))]
 		e := es[rnd.intn(len(es))]
 		if p == q && vOff(b) > vOff(e) {
@@ -960,6 +1036,13 @@ func genChunkList(rnd *Rand, f *c02File, allowEmpty bool) (chunks []bgzf.Chunk, 
 		logical = append(logical, [2]int{p, q})
 	}
 	return
+}
+
+// c13GridShapes: files in which a member holds the legal maximum of 65536 payload bytes.
+var c13GridShapes = [][]c02Block{
+	{{Kind: "data", Len: 7, Seed: 70}, {Kind: "hand", Len: 65536, Seed: 77}, {Kind: "data", Len: 1, Seed: 106}},
+	{{Kind: "hand", Len: 65536, Seed: 5}, {Kind: "data", Len: 5, Seed: 9}, {Kind: "marker"}},
+	{{Kind: "hand", Len: 65536, Seed: 200}, {Kind: "empty"}, {Kind: "data", Len: 3, Seed: 1}},
 }
 
 func genPattern(rnd *Rand) []int {
@@ -1142,12 +1225,41 @@ func checkC13(c *ctx) {
 	}
 	for k := 0; k < nCR; k++ {
 		f := genC13File(c.rnd)
+		grid := -1
+		if k%10 == 9 {
+			f = genC02ExtremeFile(c.rnd, true) // hand-framed members at the limits of the format
+			r.hist("chunkreader.extreme-file")
+			if g := k / 10; g < 2*len(c13GridShapes) {
+				// corpus first: a member of 65536 payload bytes entered at its start, by a chunk that ends at
+				// (base of a later member, 0)
+				grid = g
+				f = &c02File{Blocks: append([]c02Block{}, c13GridShapes[g%len(c13GridShapes)]...)}
+				r.hist("chunkreader.extreme-grid")
+			}
+		}
 		if err := f.build(); err != nil {
 			r.fail("c13.build", err.Error(), c13Input{Kind: "chunkreader", File: f})
 			continue
 		}
 		allowEmpty := k%5 == 4
 		chunks, logical, hasEmpty := genChunkList(c.rnd, f, allowEmpty)
+		if grid >= 0 {
+			big, last := 0, len(f.base)-1
+			for j := range f.blen {
+				if f.blen[j] == 65536 {
+					big = j
+				}
+			}
+			for f.blen[last] == 0 {
+				last--
+			}
+			from := 0
+			if grid >= len(c13GridShapes) {
+				from = big
+			}
+			chunks = []bgzf.Chunk{{Begin: bgzf.Offset{File: f.base[from]}, End: bgzf.Offset{File: f.base[last]}}}
+			logical, hasEmpty = [][2]int{{f.start[from], f.start[last]}}, false
+		}
 		pattern := genPattern(c.rnd)
 		rd := 1 + k%3
 		spans := false
